@@ -358,6 +358,8 @@ def install():
         ctx.ev("EVENT", name, task=(event.task.unique_name if event.task is not None else None))
         if name == "TASK_PLACEMENT":
             _placement_attempt_before(ctx, event)
+        if name == "SCHEDULER_START" and ctx.opts.get("frontier_probes"):
+            _frontier_probes(ctx, self, event.time)
         if name == "SIMULATOR_END":
             ctx.ended = True
             ctx.end_time = et
@@ -603,6 +605,8 @@ def install():
                                           "demand": _demand(pl.execution_strategy)}
         call["digest_cluster"] = policymon.cluster_digest(worker_pools)
         call["digest_tasks"] = policymon.tasks_digest(workload)
+        call["shadow"] = bool(getattr(ctx, "in_shadow", False))
+        call["outer"] = ctx.current_schedule_call if call["shadow"] else None
         ctx.current_schedule_call = call
 
     @active
@@ -610,7 +614,7 @@ def install():
         call = ctx.current_schedule_call
         if call is None:
             return
-        ctx.current_schedule_call = None
+        ctx.current_schedule_call = call.get("outer")
         import workload as wl
         PT = wl.Placement.PlacementType
         pls = list(ret)
@@ -619,10 +623,11 @@ def install():
         call["n_unplaced"] = sum(1 for p in pls if p.placement_type == PT.PLACE_TASK and not p.is_placed())
         call["n_cancel"] = sum(1 for p in pls if p.placement_type == PT.CANCEL_TASK)
         call["placements"] = pls
-        ctx.count("schedule_calls")
-        ctx.count("schedule_calls_" + call["policy"])
+        tag = "shadow_calls" if call["shadow"] else "schedule_calls"
+        ctx.count(tag)
+        ctx.count(tag + "_" + call["policy"])
         if call["running"] or call["scheduled"]:
-            ctx.count("schedule_calls_busy")
+            ctx.count(tag + "_busy")
         if policymon.cluster_digest(worker_pools) != call["digest_cluster"]:
             ctx.violate("C10", "side_effect_cluster", f"{call['policy']} at {call['t']} changed the live cluster")
         if policymon.tasks_digest(workload) != call["digest_tasks"]:
@@ -632,11 +637,15 @@ def install():
             greedy=call["policy"] in ("EDFScheduler", "FIFOScheduler", "LSFScheduler")))
         if call.get("input_infeasible"):
             ctx.count("schedule_calls_input_infeasible")
-        for k in ("digest_cluster", "digest_tasks", "states"):
-            call.pop(k, None)
-        ctx.sched_calls.append(call)
         for hook in ctx.opts.get("decision_hooks", ()):
             hook(ctx, call, self, sim_time, workload, worker_pools)
+        for k in ("digest_cluster", "digest_tasks", "states", "outer"):
+            call.pop(k, None)
+        if call["shadow"]:
+            return
+        ctx.sched_calls.append(call)
+        if ctx.opts.get("shadow_policies"):
+            _shadow_invocations(ctx, self, sim_time, workload, worker_pools)
     for cls in policymon.policy_classes():
         if "schedule" in cls.__dict__:
             wrap(cls, "schedule", before=sched_before, after=sched_after)
@@ -683,6 +692,27 @@ def install():
                for tid in got for gd in [ctx.graph_desc.get(ctx.tasks[tid]["gbase"])] if gd is not None and tid in ctx.tasks):
             ctx.count("frontier_calls_with_cond")
     wrap(wlmod.Workload, "get_schedulable_tasks", after=frontier_after)
+
+    @active
+    def releasable_after(ctx, ret, self):
+        if ctx.sim is None:
+            return
+        got = sorted(t.unique_name for t in ret)
+        exp = []
+        for gname, tg in self.task_graphs.items():
+            gd = ctx.graph_desc.get(gname.split("@")[0])
+            if gd is None:
+                return
+            for t in tg.get_nodes():
+                ps = gd["parents"].get(t.name, [])
+                r = ctx.tasks.get(id(t))
+                done = all((ctx.rec_by_name(gname, p) or {}).get("finishes") for p in ps)
+                if t._state.name in ("VIRTUAL", "SCHEDULED", "PREEMPTED") and done:
+                    exp.append(t.unique_name)
+        ctx.count("releasable_calls")
+        if got != sorted(exp):
+            ctx.violate("C18", "releasable_tasks_mismatch", f"get_releasable_tasks returned {got}, expected {sorted(exp)}")
+    wrap(wlmod.Workload, "get_releasable_tasks", after=releasable_after)
 
     # ---- utilization rows --------------------------------------------------------------
     @active
@@ -884,27 +914,168 @@ def _starved(ctx, r, memo=None):
     return starved(r["name"])
 
 
+def _shadow_policies(ctx, live):
+    """fresh instances of the other bundled policies, created once per run."""
+    pol = getattr(ctx, "_shadow_pols", None)
+    if pol is not None:
+        return pol
+    import schedulers as S
+    from utils import EventTime
+    US = EventTime.Unit.US
+    z = EventTime.zero()
+    pol = []
+    live_name = type(live).__name__
+    greedy_run = live_name in ("EDFScheduler", "FIFOScheduler", "LSFScheduler", "ClockworkScheduler")
+    for enf in (False, True):
+        pol.append(("EDF", S.EDFScheduler(runtime=z, enforce_deadlines=enf)))
+        pol.append(("FIFO", S.FIFOScheduler(runtime=z, enforce_deadlines=enf)))
+    pol.append(("LSF", S.LSFScheduler(runtime=z)))
+    if not greedy_run:
+        # planners need the worker id of running / scheduled tasks, which only planner-driven runs record
+        # the state is reachable only under the live policy's frontier options: mirror them
+        la, retract, rtg = live.lookahead, bool(live.retract_schedules), bool(live.release_taskgraphs)
+        pol.append(("ILP_goodput", S.ILPScheduler(runtime=z, lookahead=la, enforce_deadlines=True, goal="max_goodput",
+                                                  retract_schedules=retract, release_taskgraphs=rtg)))
+        pol.append(("ILP_slack", S.ILPScheduler(runtime=z, lookahead=la, enforce_deadlines=False, goal="max_slack",
+                                                retract_schedules=retract, release_taskgraphs=rtg)))
+        pol.append(("TetriSched_Gurobi", S.TetriSchedGurobiScheduler(
+            runtime=z, lookahead=la, enforce_deadlines=True, retract_schedules=retract, release_taskgraphs=rtg,
+            goal="max_goodput", time_discretization=EventTime(2, US), plan_ahead=EventTime(10, US),
+            time_limit=EventTime(-1, US))))
+        if not rtg:
+            pol.append(("TetriSched_CPLEX", S.TetriSchedCPLEXScheduler(
+                runtime=z, lookahead=la, enforce_deadlines=True, retract_schedules=retract, goal="max_goodput",
+                time_discretization=EventTime(1, US), plan_ahead=EventTime(8, US), time_limit=EventTime(-1, EventTime.Unit.S))))
+        pol.append(("Z3", S.Z3Scheduler(runtime=z, lookahead=la, enforce_deadlines=False, goal="max_slack",
+                                        retract_schedules=retract, release_taskgraphs=rtg)))
+    for _, p in pol:
+        p._logger.handlers.clear()
+        p._logger.addHandler(logging.NullHandler())
+        p._logger.setLevel(logging.CRITICAL)
+    ctx._shadow_pols = pol
+    return pol
+
+
+def _shadow_invocations(ctx, live, sim_time, workload, worker_pools):
+    import random as _random
+    state = _random.getstate()
+    ctx.in_shadow = True
+    try:
+        for name, pol in _shadow_policies(ctx, live):
+            noff = len(ctx.sched_calls[-1].get("offered") or [])
+            if (name == "Z3" and noff > 4) or (name != "Z3" and not name.startswith(("EDF", "FIFO", "LSF")) and noff > 8):
+                ctx.count("shadow_skipped_large")
+                continue
+            try:
+                pol.schedule(sim_time, workload, worker_pools)
+            except BaseException as e:  # noqa
+                if isinstance(e, (KeyboardInterrupt, Watchdog, WallClock)):
+                    raise
+                ctx.current_schedule_call = None
+                if (type(e).__name__ == "GurobiError" and "size-limited" in str(e)) or type(e).__name__ == "DOcplexLimitsExceeded":
+                    ctx.count("shadow_tooling_limit")
+                    continue
+                tb = traceback.extract_tb(e.__traceback__)
+                frames = [f for f in tb if f.filename.startswith(common.REPO)]
+                where = f"{os.path.relpath(frames[-1].filename, common.REPO)}:{frames[-1].name}" if frames else "?"
+                ctx.violate("C10", f"schedule_raises:{type(e).__name__}@{where}",
+                            f"shadow {name} at t={sim_time.time}: {type(e).__name__}: {str(e)[:200]}", shadow=name)
+    finally:
+        ctx.in_shadow = False
+        ctx.current_schedule_call = None
+        _random.setstate(state)
+
+
+def _frontier_probes(ctx, sim, sim_time):
+    """C18: extra frontier calls on the current state with a grid of lookaheads / switches /
+    branch policies.  Results are checked and discarded; the random stream is restored."""
+    import random as _random
+    import workload as wl
+    from utils import EventTime
+    BP = wl.BranchPredictionPolicy
+    state = _random.getstate()
+    ctx.in_probe = True
+    try:
+        wlobj = sim._workload
+        now = sim_time.time
+        offers = {}
+        for pol in (BP.ALL, BP.WORST_CASE, BP.BEST_CASE, BP.MAXIMUM, BP.RANDOM):
+            for retract in (False, True):
+                for rtg in (False, True):
+                    for la in (0, 1, 3, 10, 1000):
+                        if pol == BP.RANDOM and (la not in (0, 10) or rtg):
+                            continue
+                        try:
+                            res = wlobj.get_schedulable_tasks(sim_time, EventTime(la, EventTime.Unit.US), False, retract,
+                                                               sim._worker_pools, pol, 0.5, rtg)
+                        except Exception as e:
+                            ctx.violate("C18", f"frontier_raises:{type(e).__name__}",
+                                        f"get_schedulable_tasks(t={now}, lookahead={la}, retract={retract}, rtg={rtg}, {pol.name}): {e}")
+                            continue
+                        ids = [id(t) for t in res]
+                        ctx.count("frontier_probe_calls")
+                        if len(ids) != len(set(ids)):
+                            ctx.violate("C18", "task_offered_twice", f"t={now} la={la} retract={retract} rtg={rtg} {pol.name}")
+                        got = set(ids)
+                        offers[(pol.name, retract, rtg, la)] = got
+                        for tid, t in ctx.task_objs.items():
+                            st = t._state.name
+                            r = ctx.tasks[tid]
+                            if st == "RELEASED" and tid not in got:
+                                ctx.violate("C18", "released_task_not_offered", f"probe t={now} la={la} retract={retract} rtg={rtg} {pol.name}: {r['uname']} missing")
+                            if tid in got and st in ("COMPLETED", "CANCELLED"):
+                                ctx.violate("C18", "finished_task_offered", f"probe t={now} la={la} {pol.name}: {r['uname']} in state {st}")
+                            if tid in got and st == "RUNNING":
+                                ctx.violate("C18", "running_task_offered", f"probe t={now} la={la} {pol.name}: {r['uname']}")
+                            if tid in got and st == "SCHEDULED" and not retract:
+                                ctx.violate("C18", "scheduled_task_offered", f"probe t={now} la={la} {pol.name}: {r['uname']} without retraction")
+        names = {tid: ctx.tasks[tid]["uname"] for tid in ctx.task_objs}
+        for (pol, retract, rtg, la), got in offers.items():
+            if pol == "RANDOM":
+                continue
+            for la2 in (1, 3, 10, 1000):
+                if la2 > la and (pol, retract, rtg, la2) in offers:
+                    ctx.count("monotonicity_pairs")
+                    miss = got - offers[(pol, retract, rtg, la2)]
+                    if miss:
+                        ctx.violate("C18", "lookahead_not_monotone",
+                                    f"t={now} {pol} retract={retract} rtg={rtg}: offered at lookahead {la} but not at {la2}: {[names.get(m) for m in miss]}")
+            if not rtg and (pol, retract, True, la) in offers:
+                ctx.count("monotonicity_pairs")
+                miss = got - offers[(pol, retract, True, la)]
+                if miss:
+                    ctx.violate("C18", "release_taskgraphs_not_monotone",
+                                f"t={now} {pol} retract={retract} la={la}: offered without release_taskgraphs but not with it: {[names.get(m) for m in miss]}")
+    finally:
+        ctx.in_probe = False
+        _random.setstate(state)
+
+
 def _unfinished_ancestors_zero(ctx, r):
-    """True iff every unfinished ancestor of the task (through unfinished nodes) has a
-    slowest-strategy runtime of 0, i.e. its estimated completion equals 'now'."""
+    """True iff the required predecessors of the task are complete or have nothing left to run
+    (zero-runtime strategies all the way up): their estimated completion equals 'now'."""
     gd = ctx.graph_desc.get(r["gbase"])
     if gd is None:
         return False
     prof = {p["name"]: max(s["runtime"] for s in p["execution_strategies"]) for p in ctx.world["workload"]["profiles"]}
     wp = {n["name"]: n["work_profile"] for n in gd["desc"]["graph"]}
-    seen, stack = set(), list(gd["parents"].get(r["name"], []))
-    while stack:
-        p = stack.pop()
-        if p in seen:
-            continue
-        seen.add(p)
+
+    def ready(p, seen):
         rec = ctx.rec_by_name(r["graph"], p)
-        if rec is not None and (rec["finishes"] or rec["state"] == "CANCELLED"):
-            continue
-        if prof.get(wp[p], 1) != 0:
+        if rec is not None and rec["finishes"]:
+            return True
+        if (rec is not None and rec["state"] == "CANCELLED") or p in seen:
             return False
-        stack.extend(gd["parents"].get(p, []))
-    return True
+        if rec is not None and rec["state"] in ("SCHEDULED", "RUNNING"):
+            t = ctx.task_objs.get(next(k for k, v in ctx.tasks.items() if v is rec))
+            return t is not None and t._remaining_time is not None and t._remaining_time.time == 0
+        return prof.get(wp[p], 1) == 0 and parents_ready(p, seen | {p})
+
+    def parents_ready(name, seen):
+        rs = [ready(p, seen) for p in gd["parents"].get(name, [])]
+        return (any(rs) if gd["flags"][name]["terminal"] else all(rs)) if rs else True
+
+    return parents_ready(r["name"], frozenset())
 
 
 def _scan_states(ctx):
